@@ -324,6 +324,35 @@ def run_smooth(ctx, spec):
                       {'n': n, 'p': p, 'history': hist})
       else:
         ctx.count('hit:' + fam)
+  # the documented base a = 2^(n-1): p - 1 = S*b with b | M although the
+  # shared S (>= 2^60, 2^20-smooth) holds a prime square that M does not
+  for j in range(3 if ctx.tier == 'quick' else 12):
+    if not ctx.want('c%d' % j):
+      continue
+    both = j % 3 == 2
+    n, p, qq = rsagen.shared_smooth_cofactor(rng, rng.choice(spec['sizes']),
+                                             both)
+    inside = (M % (p - 1) != 0 and ((n - 1) * M) % (p - 1) == 0 and
+              math.gcd(n - 1, M) >= 2 ** 60 and
+              (((n - 1) * M) % (qq - 1) == 0) == both)
+    if not inside:
+      ctx.count('smooth_cofactor_not_constructible')
+      continue
+    flagged, facs = _run(ctx, chk, n)
+    ctx.count('evaluations')
+    ctx.distinct(n, 'cofactor')
+    ctx.count('tried:smooth/cofactor')
+    if not flagged:
+      ctx.violation('shared-smooth-not-flagged/cofactor',
+                    'p-1 = S*b, q-1 = S*c with S >= 2^60 2^20-smooth (holding '
+                    'a prime square) and b | default product, both_smooth=%s: '
+                    'not flagged' % both, {'n': n, 'p': p, 'both': both})
+    elif not both and not {p, qq} <= facs:
+      ctx.violation('shared-smooth-not-factored/cofactor',
+                    'only b is smooth but no factorisation was recorded',
+                    {'n': n, 'p': p})
+    else:
+      ctx.count('hit:smooth/cofactor')
   # user-supplied bounds: a key whose p-1 is a squarefree product of primes
   # below the bound divides every bound-powersmooth product
   for bound, inst in sorted((k, v) for k, v in extra.items()
@@ -403,6 +432,7 @@ def finalize(agg, tier):
                  'data': {'miss': c['miss:' + fam], 'n': c['tried:' + fam]}})
   for k in ('hit:smooth/one', 'hit:smooth/both', 'hit:smooth/one/maxpow',
             'hit:smooth/both/maxpow', 'hit:smooth/user-bound',
+            'hit:smooth/cofactor',
             'pollard_product_observed', 'decoy_instances_built', 'instance_history:1',
             'instance_history:2', 'instance_history:3'):
     if not c.get(k):
